@@ -76,6 +76,19 @@ CLAIMS = {
    note=NOTE + "C06: reverse-mode 0·∞ effects are outside the ℝ theorems and are covered by the oracle only (the rms=0 case was a genuine defect, fixed).",
    technique="Lean 4 theorems by induction over pixel lists + fitter-level gradient/used-set correspondence and exact perturbation oracle",
    design="7/C06"),
+ "C08": dict(
+   text=("Proof, full over ℝ for the structure: the three renderers (pixel with its oversampled box and bilinear point source, Fourier, "
+         "hybrid with its real/Fourier component split, interpolated and direct amplitudes), the composites, render_for_model and the "
+         "scene assembly (explicit DFT model of rfft2/irfft2, PSF transform, conv_img/conv_fft/combine_scene) are modelled in Lean. Proved "
+         "for every image size, PSF, option set and every parameter value: each renderer's triple is homogeneous of degree one in flux "
+         "(every profile type), zero flux gives the zero image, combine_scene is additive and homogeneous, a scene of any number of "
+         "sources is the sum of the individually rendered sources, the three composites are the sums of their components with fractions "
+         "f and 1-f at the same centre and angle, exp/dev are Sersic at n=1/4. Tie: real render_source/render_for_model vs the model image "
+         "(float64 1e-9 of the peak, float32 2e-5) on mixed catalogues; the property's float32 identities (5e-6) and jax.linear_transpose "
+         "in flux are run on the real code as the oracle."),
+   note=NOTE + "C08: jnp.fft modelled as explicit DFT sums; interpax amplitudes enter as data; float32 identities observed, not proved.",
+   technique="Lean 4 theorems (linearity of every renderer/profile/scene over all inputs, induction over catalogues) + render correspondence + float32 identity oracle",
+   design="7/C08"),
 }
 
 checks, na = [], []
